@@ -1,13 +1,35 @@
 import PwVerif.Model.WfIO
+import PwVerif.Model.MapHeap
 import PwVerif.Model.Proto
 open PwVerif PwVerif.WfIO PwVerif.Proto
 
 /-- driver state: the world, every channel id ever created with its printable name, the hint
 table behind `admits`, and the outcome of a pending `kw` line -/
 structure St where
+  /-- the world; its two maps are always `HS.world` of the heap below -/
   w : W
   names : List (Nat × String)     -- id ↦ "child.chan"
   kw : Res
+  /-- map objects with identity (`Model/MapHeap.lean`) and who stores which -/
+  hp : List MObj
+  sl : Slot → Option Nat
+  /-- objects the user still holds: `orig.in`, `stale.in`, `other.in`, … ↦ reference -/
+  refs : List (String × Nat)
+
+def St.hs (s : St) : HS := { base := s.w, heap := s.hp, slot := s.sl }
+def St.ofHS (s : St) (h : HS) : St := { s with w := h.world, hp := h.heap, sl := h.slot }
+
+def sideWord : Side → String
+  | .inputs => "in" | .outputs => "out"
+
+def otherSlot : Side → Slot
+  | .inputs => .otherIn | .outputs => .otherOut
+
+def setRef (refs : List (String × Nat)) (k : String) (v : Option Nat) : List (String × Nat) :=
+  let rest := refs.filter fun e => e.1 != k
+  match v with
+  | some r => rest ++ [(k, r)]
+  | none => rest
 
 def showRes : Res → String
   | .ok => "ok" | .dupErr => "dupErr" | .typeErr => "typeErr" | .connErr => "connErr"
@@ -34,12 +56,17 @@ def showVals (s : St) : String :=
 /-- what the harness does after every operation: it reads `wf.inputs`, `wf.outputs` (each calls
 the getter of its map, which cleans the stored object in place) and then both maps -/
 def settle (s : St) : St × Bool × Bool :=
-  let r1 := step s.w (.read .inputs)
-  let r2 := step r1.1 (.read .outputs)
-  ({ s with w := r2.1 }, decide (r1.2 = .ok), decide (r2.2 = .ok))
+  let r1 := hget s.hs .wfIn
+  let r2 := hget r1.1 .wfOut
+  (s.ofHS r2.1, decide (r1.2 = .ok), decide (r2.2 = .ok))
+
+/-- the detached objects as they are (no getter involved) -/
+def showObjs (s : St) : String :=
+  ";".intercalate (["in.orig", "in.stale", "in.other", "out.orig", "out.stale", "out.other"].filterMap fun k =>
+    (s.refs.lookup k).bind fun r => (s.hs.obj r).map fun o => s!"{k}={showMap (some o.items)}")
 
 def obsOf (s : St) (fl : Bool × Bool) : String :=
-  s!"in:{showPanel s .inputs fl.1} out:{showPanel s .outputs fl.2} imap:{showMap s.w.imap} omap:{showMap s.w.omap} vals:{showVals s}"
+  s!"in:{showPanel s .inputs fl.1} out:{showPanel s .outputs fl.2} imap:{showMap s.w.imap} omap:{showMap s.w.omap} objs:{showObjs s} vals:{showVals s}"
 
 def showRet (s : St) : String :=
   match runReturn s.w with
@@ -55,7 +82,7 @@ def tagOk (hint : String) (v : Val) : Bool :=
   | _ => true
 
 def init : St :=
-  { w := empty (fun _ _ => true) (fun _ _ => true), names := [], kw := .ok }
+  { w := empty (fun _ _ => true) (fun _ _ => true), names := [], kw := .ok, hp := [], sl := fun _ => none, refs := [] }
 
 def parseChan (w : String) : Option (String × Nat) :=
   match w.splitOn ":" with
@@ -85,14 +112,65 @@ def parseMap (ws : List String) : Option (Option UserMap) :=
     | none => none
   | _ => none
 
-/-- `dict k>v …` / `bidict k>v …` / `none` → the operation on one side -/
-def mapOp (side : Side) (ws : List String) : Option Op :=
+/-- the argument of a whole-map assignment: `none`, or `[shared] dict|bidict k>v …` -/
+structure MapArg where
+  shared : Bool
+  bidict : Bool
+  m : Option UserMap
+
+def parseMapArg (ws : List String) : Option MapArg :=
+  let (shared, ws) := match ws with
+    | "shared" :: rest => (true, rest)
+    | _ => (false, ws)
   match ws with
-  | "bidict" :: es =>
+  | ["none"] => if shared then none else some ⟨false, false, none⟩
+  | form :: es =>
+    if form ≠ "dict" && form ≠ "bidict" then none else
     match es.mapM parseEntry with
-    | some m => if (m.map Prod.fst).eraseDups.length = m.length then some (.setMapB side m) else none
+    | some m => if (m.map Prod.fst).eraseDups.length = m.length then some ⟨shared, form = "bidict", some m⟩ else none
     | none => none
-  | _ => (parseMap ws).map fun m => .setMap side m
+  | _ => none
+
+/-- `foreign[side]["stale"] = live(side)`: the getter runs, the reference (or its absence) is remembered -/
+def noteStale (s : St) (side : Side) : St :=
+  let r := hget s.hs (Slot.ofSide side)
+  let s1 := s.ofHS r.1
+  { s1 with refs := setRef s1.refs (sideWord side ++ ".stale") (if r.2 = .ok then s1.sl (Slot.ofSide side) else none) }
+
+/-- `wf.<side>_map = obj` for every listed side, the way the harness does it: the user builds ONE
+object, remembers it (`orig`) and what was stored before (`stale`); a shared object goes to the
+second workflow first (whose live map is remembered as `other`); then the assignments, the first
+exception ends the statement list -/
+def assignMap (s : St) (sides : List Side) (a : MapArg) : St × Res :=
+  match a.m with
+  | none =>
+    sides.foldl (fun (acc : St × Res) side =>
+      if acc.2 ≠ .ok then acc else
+      let s1 := noteStale acc.1 side
+      let s2 := { s1 with refs := setRef s1.refs (sideWord side ++ ".orig") none }
+      let r := hassign s2.hs (Slot.ofSide side) none
+      (s2.ofHS r.1, r.2)) (s, .ok)
+  | some m =>
+    let n := hnew s.hs a.bidict m
+    if n.2 ≠ .ok then (s, n.2) else
+    let ref := s.hp.length
+    let s0 := s.ofHS n.1
+    -- bookkeeping of all sides first (as the harness does for one object on both sides)
+    let s1 := sides.foldl (fun (acc : St) side =>
+      let x := noteStale acc side
+      { x with refs := setRef x.refs (sideWord side ++ ".orig") (some ref) }) s0
+    let s2 := if a.shared then
+        sides.foldl (fun (acc : St) side =>
+          let r := hassign acc.hs (otherSlot side) (some ref)
+          if r.2 ≠ .ok then acc.ofHS r.1 else
+          let g := hget r.1 (otherSlot side)
+          let x := acc.ofHS g.1
+          { x with refs := setRef x.refs (sideWord side ++ ".other") (x.sl (otherSlot side)) }) s1
+      else s1
+    sides.foldl (fun (acc : St × Res) side =>
+      if acc.2 ≠ .ok then acc else
+      let r := hassign acc.1.hs (Slot.ofSide side) (some ref)
+      (acc.1.ofHS r.1, r.2)) (s2, .ok)
 
 def optStr (v : String) : Option String := if v = "-" then none else some v
 
@@ -125,18 +203,26 @@ def parseTok (w : String) : Option Tok :=
 /-- a batch of in-place edits, as a script would run it: `getter` = every edit goes through the
 property again (`wf.inputs_map[k] = v`), `held` = the reference is taken once (`m = wf.inputs_map`)
 and edited; the first exception ends the batch. `access` reads the panel of that side. -/
-def medit (w : W) (side : Side) (everyTime : Bool) : List Tok → Nat → W × String
-  | [], _ => (w, "ok")
+def medit (h : HS) (sl : Slot) (everyTime : Bool) : List Tok → Nat → HS × String
+  | [], _ => (h, "ok")
   | t :: rest, i =>
     let pre := match t with
-      | .access => step w (.read side)
-      | .edit _ => if everyTime then step w (.read side) else (w, .ok)
+      | .access => hget h sl
+      | .edit _ => if everyTime then hget h sl else (h, .ok)
     if pre.2 ≠ .ok then (pre.1, s!"{showRes pre.2}@{i}") else
     match t with
-    | .access => medit pre.1 side everyTime rest (i + 1)
+    | .access => medit pre.1 sl everyTime rest (i + 1)
     | .edit e =>
-      let r := step pre.1 (.edit side e)
-      if r.2 ≠ .ok then (r.1, s!"{showRes r.2}@{i}") else medit r.1 side everyTime rest (i + 1)
+      let r := match pre.1.slot sl with
+        | some ref => hedit pre.1 ref e
+        | none => (pre.1, (editStored none e).2)   -- the getter returned `None`
+      if r.2 ≠ .ok then (r.1, s!"{showRes r.2}@{i}") else medit r.1 sl everyTime rest (i + 1)
+
+/-- edits of a detached object: whatever they raise is the user's business -/
+def feedit (h : HS) (ref : Nat) : List Tok → HS
+  | [] => h
+  | .access :: rest => feedit h ref rest
+  | .edit e :: rest => feedit (hedit h ref e).1 ref rest
 
 def splitAt (ws : List String) (sep : String) : List String × List String :=
   (ws.takeWhile (· ≠ sep), (ws.dropWhile (· ≠ sep)).drop 1)
@@ -193,26 +279,32 @@ def exec (s : St) (ws : List String) : Option (St × String) :=
     match a.toNat? with
     | some a => fin (step s.w (.disconnectAll a))
     | none => none
-  | "imap" :: rest => (mapOp .inputs rest).bind fun o => fin (step s.w o)
-  | "omap" :: rest => (mapOp .outputs rest).bind fun o => fin (step s.w o)
+  | "imap" :: rest => (parseMapArg rest).map fun a => let r := assignMap s [.inputs] a; (r.1, showRes r.2)
+  | "omap" :: rest => (parseMapArg rest).map fun a => let r := assignMap s [.outputs] a; (r.1, showRes r.2)
   | "bothmap" :: rest =>
     -- the SAME object assigned to `inputs_map` and then to `outputs_map`
-    match mapOp .inputs rest, mapOp .outputs rest with
-    | some oi, some oo =>
-      let r1 := step s.w oi
-      if r1.2 ≠ .ok then fin r1 else fin (step r1.1 oo)
-    | _, _ => none
+    (parseMapArg rest).bind fun a =>
+      if a.shared || a.m.isNone then none else
+      let r := assignMap s [.inputs, .outputs] a; some (r.1, showRes r.2)
   | "medit" :: side :: mode :: toks =>
     match parseSide side, toks.mapM parseTok with
     | some side, some toks =>
       if mode = "getter" || mode = "held" then
         -- `m = wf.inputs_map`: the getter runs once in any case
-        let r0 := step s.w (.read side)
-        if r0.2 ≠ .ok then some ({ s with w := r0.1 }, s!"{showRes r0.2}@0") else
-        let r := medit r0.1 side (mode = "getter") toks 0
-        some ({ s with w := r.1 }, r.2)
+        let r0 := hget s.hs (Slot.ofSide side)
+        if r0.2 ≠ .ok then some (s.ofHS r0.1, s!"{showRes r0.2}@0") else
+        let r := medit r0.1 (Slot.ofSide side) (mode = "getter") toks 0
+        some (s.ofHS r.1, r.2)
+      else if mode = "orig" || mode = "stale" || mode = "other" then
+        match s.refs.lookup (sideWord side ++ "." ++ mode) with
+        | some ref => some (s.ofHS (feedit s.hs ref toks), "ok")
+        | none => none
       else none
     | _, _ => none
+  | ["reload"] =>
+    -- pickle round trip; the objects stored so far stay with the user as `stale`
+    let s1 := noteStale (noteStale s .inputs) .outputs
+    some (s1.ofHS (hreload s1.hs), "ok")
   | ["noop"] => some (s, "ok")
   | ["assign", side, k, v] =>
     match parseSide side with
